@@ -227,12 +227,77 @@ class LexShape:
 
     def analyse(self, outs, base_conds):
         """outs: list of (state, kind, value).  Returns ordered list of atoms (kind,a,b,extra,negated)."""
+        outs = self.without_identity_shortcuts(outs, base_conds)
         sem = self.semantic(outs, base_conds)
         if sem is not None:
             seq, problems = sem
             self.problems.extend(problems)
             return seq
         return self.structural(outs, base_conds)
+
+    def without_identity_shortcuts(self, outs, base_conds):
+        """`if (&x == &y) return 0;` in a component comparison: the very same object compares equal through its components too (each
+        component pairs f(x) with f(y), which the diag obligation checks), so the shortcut path adds nothing and the test is dropped
+        from the other paths.  A shortcut that returns anything but 0 is a problem."""
+        def is_addr(t):
+            while isinstance(t, tuple) and t and t[0] == 'castto':
+                t = t[2]
+            return isinstance(t, tuple) and t[:1] == ('addr',)
+
+        def designator(t):
+            while isinstance(t, tuple) and t and t[0] == 'castto':
+                t = t[2]
+            # the address of an object, or a call that yields one (a search that hands back the element it found)
+            return isinstance(t, tuple) and t[:1] in (('addr',), ('call',), ('vcall',)) and atom_of(t) is None
+
+        def identity(c):
+            return isinstance(c, tuple) and len(c) == 4 and c[0] == 'op' and c[1] in ('==', '!=') and (is_addr(c[2]) or is_addr(c[3])) \
+                and designator(c[2]) and designator(c[3])
+        def strip(t):
+            while isinstance(t, tuple) and t and t[0] == 'castto':
+                t = t[2]
+            return t
+
+        def zero_test(c, w):
+            c = strip(c)
+            if atom_of(c) is not None:
+                return not w
+            if isinstance(c, tuple) and len(c) == 4 and c[0] == 'op' and c[1] in ('==', '!=') and isinstance(c[3], tuple) and c[3][:2] == ('k', 0) \
+                    and atom_of(strip(c[2])) is not None:
+                return (c[1] == '==') == bool(w)
+            if isinstance(c, tuple) and len(c) == 3 and c[0] == 'un' and c[1] == '!' and atom_of(strip(c[2])) is not None:
+                return bool(w)
+            return False
+        kept, shortcuts = [], []
+        for st, kind, v in outs:
+            conds = st.conds[base_conds:]
+            idc = [(c, w) for c, w in conds if identity(c)]
+            rest = [(c, w) for c, w in conds if not identity(c)]
+            if not idc:
+                kept.append((st, kind, v, rest))
+            elif any((c[1] == '==') == bool(w) for c, w in idc):
+                shortcuts.append((st, kind, v, rest))
+            else:
+                s2 = st.fork()
+                s2.conds = st.conds[:base_conds] + rest
+                kept.append((s2, kind, v, rest))
+        if not shortcuts:
+            return outs
+        for st, kind, v, rest in shortcuts:
+            # the sibling that reaches the same continuation by finding every component of the shortcut comparison zero
+            ok = False
+            for s2, k2, v2, r2 in kept:
+                if k2 != kind or not all(x in r2 for x in rest):
+                    continue
+                if not all(zero_test(c, w) for (c, w) in r2 if (c, w) not in rest):
+                    continue
+                if v2 == v or (isinstance(v, tuple) and v[:2] == ('k', 0) and atom_of(strip(v2)) is not None):
+                    ok = True
+                    break
+            if not ok:
+                self.problems.append('a shortcut taken for one and the same object (`&x == &y`) does not answer what the component comparisons '
+                                     'answer when they all find equality')
+        return [(s_, k_, v_) for (s_, k_, v_, _r) in kept] if kept else outs
 
     def semantic(self, outs, base_conds):
         """Finite-case evaluation of the comparator: every component comparison takes the values -2, -1, 0, 1, 2 (a verified
@@ -408,6 +473,11 @@ def check_scalar_compare(F, fid):
                 # c is call(std::less<void>::operator(), lt, (x, y)), or a built-in relation between the two arguments
                 if isinstance(c, tuple) and c[0] == 'call' and 'std::less' in c[1] and len(c[3]) == 2:
                     rel, (x, y) = '<', c[3]
+                elif isinstance(c, tuple) and len(c) == 4 and c[0] == 'op' and c[1] in ('<', '>', '<=', '>=', '==', '!=') \
+                        and isinstance(c[3], tuple) and c[3][:2] == ('k', 0) and isinstance(c[2], tuple) and c[2][0] == 'call' \
+                        and c[2][1].startswith('std::compare_three_way::operator()') and len(c[2][3]) == 2:
+                    # the sign of std::compare_three_way{}(x, y) (the same total order on pointers as std::less): `(x <=> y) rel 0` is `x rel y`
+                    rel, (x, y) = c[1], c[2][3]
                 elif isinstance(c, tuple) and len(c) == 4 and c[0] == 'op' and c[1] in ('<', '>', '<=', '>=', '==', '!='):
                     rel, x, y = c[1], c[2], c[3]
                 else:
@@ -633,6 +703,12 @@ class KeyChecker:
             outs = S.run(cmp_fid, this=compQ, args=[objP, keyQ], state=st.fork())
         except Unsupported as e:
             raise AnalysisBroken(f'{cmp_fid}: outside the evaluator language: {e}')
+        if outs and all(k_ == 'return' and isinstance(v_, tuple) and v_[:2] == ('k', 0) and len(s_.conds) == base for (s_, k_, v_) in outs):
+            # on this pair of histories the later request's key *is* the element's component (both are the node the first request
+            # made, or one process-wide constant) and the comparison is answered by identity: the element is found, and there is no
+            # component to judge -- what the parameters contribute is judged where the key itself is looked up (its own table)
+            self.ck.note(f'{inst}: the key is the very node the element holds; answered by identity in {contracts.short(contracts.fn_qname(cmp_fid))}')
+            return None
         shape = LexShape()
         seq = shape.analyse(outs, base)
         loc = cf['loc']
